@@ -44,9 +44,9 @@ Full statement / proved / missing
     not depend on the rule (`inst_sfh`, through C02), and wherever the code is unsound the rule-off relation rejects the pair: every
     unsound acceptance of the code is one that only the Struct-from-Hash arm grants.  (Not proved: a syntactic localisation such as the
     harness class `unsound-sfh` = "A contains a Struct and B a Hash type".)
-  - second-tier types (Callable, Runtime, Like, Init, TypeReference, SemVer, URI) and user recursive aliases (Timestamp[min,max] and
-    Iterator[T] are inside the model since the extension round: every theorem of this file covers them; Iterator has no instance in the
-    value language, so its soundness is vacuous and what is checked of it is assignability, equality, generalisation, commonType):
+  - second-tier types (Callable, Like, Init, TypeReference, SemVer, URI, Runtime with a Go type) and user recursive aliases (Timestamp[min,max],
+    Iterator[T] and Runtime[runtime, name, pattern] are inside the model since the extension round: every theorem of this file covers them; Iterator and Runtime have no instance in the
+    value language, so their soundness is vacuous and what is checked of them is assignability, equality, generalisation, commonType):
     not in the model; harness-side tests only.
 -/
 namespace Pcore.Lat
